@@ -289,6 +289,18 @@ def run_case(case, rec):
             g = u.value[2].properties if u.ok else None
         else:
             m = common.lib_marshal(obj, 1)
+            if m.ok and len(m.value) > 13:
+                # the peer's frame arrives damaged first: cut inside the
+                # arguments at several points (envelope consistent), refused;
+                # then the good frame
+                import struct as _st
+                payload = m.value[7:-1]
+                for cut in sorted(set([5, 6, 8, len(payload) // 2,
+                                       len(payload) - 1, len(payload) - 3])):
+                    if 4 <= cut < len(payload):
+                        common.lib_unmarshal(_st.pack(
+                            '>BHI', 1, 1, cut) + payload[:cut] + b'\xce')
+                rec.count('failing_decodes_before_roundtrip')
             u = common.lib_unmarshal(m.value) if m.ok else m
             g = u.value[2] if u.ok else None
         if g is None:
